@@ -782,6 +782,8 @@ class Typer:
             if anc is fn.node:
                 body = getattr(anc, "body", [])
                 facts += self._preceding_asserts(body, child, e.id, m)
+                if isinstance(child, ast.If) and child in body and any(e is x for b_ in child.body for x in ast.walk(b_)):
+                    facts += self._same_guard_facts(body, child, e.id, m, fn)
                 break
             if isinstance(anc, (ast.If, ast.While)) and child in anc.body:
                 facts += self._isinstance_facts(anc.test, e.id, m, True, fn.node)
@@ -803,12 +805,39 @@ class Typer:
                 seq = getattr(anc, fld, None)
                 if isinstance(seq, list) and child in seq:
                     facts += self._preceding_asserts(seq, child, e.id, m)
+                    if isinstance(child, ast.If) and any(e is x for b_ in child.body for x in ast.walk(b_)):
+                        facts += self._same_guard_facts(seq, child, e.id, m, fn)
             child = anc
         facts = [f for f in facts if f != ANY]
         if not facts:
             return None
         # most specific fact wins (last found is outermost; first is innermost)
         return facts[0]
+
+    def _same_guard_facts(self, seq, use_if: ast.If, name: str, m, fn):
+        """the name is bound and narrowed (`x = ..; assert isinstance(x, C)`) in the body of an earlier
+        if-statement of the same list with the same test - a flag bound once in the function - and bound nowhere
+        else: under the flag the later use sees the narrowed value"""
+        t = use_if.test
+        flag = t.id if isinstance(t, ast.Name) else None
+        if flag is None:
+            return []
+        stores_flag = [x for x in ast.walk(fn.node) if isinstance(x, ast.Name) and x.id == flag and isinstance(x.ctx, (ast.Store, ast.Del))]
+        if any(isinstance(a, (ast.For, ast.While)) for sf in stores_flag for a in A.ancestors(sf) if a is not fn.node and any(use_if is y for y in ast.walk(a))):
+            return []
+        out = []
+        for st in seq[: seq.index(use_if)]:
+            if isinstance(st, ast.If) and isinstance(st.test, ast.Name) and st.test.id == flag:
+                # the flag has its final value before the first of the two tests
+                if any((getattr(sf, "lineno", 0), getattr(sf, "col_offset", 0)) >= (st.lineno, st.col_offset) for sf in stores_flag):
+                    continue
+                inside = {id(x) for b_ in st.body for x in ast.walk(b_)}
+                stores = [x for x in ast.walk(fn.node) if isinstance(x, ast.Name) and x.id == name and isinstance(x.ctx, (ast.Store, ast.Del))]
+                if stores and all(id(x) in inside for x in stores):
+                    # the facts that hold at the end of that body
+                    marker = ast.Pass()
+                    out = self._preceding_asserts(list(st.body) + [marker], marker, name, m)
+        return out
 
     def _preceding_asserts(self, seq, child, name, m):
         out = []
